@@ -103,6 +103,16 @@ func (env *Env) call(e *ECall) TV {
 	case "contains":
 		s, p := arg(0), arg(1)
 		return TV{fmt.Sprintf("(str.contains %s %s)", s.T, p.T), "Bool", B}
+	case "trimRight":
+		s, c := arg(0), arg(1)
+		f := "sfn_strings_TrimRight"
+		P.Declare(f, fmt.Sprintf("(declare-fun %s (String String) String)", f))
+		return TV{fmt.Sprintf("(%s %s %s)", f, s.T, c.T), "String", s.Go}
+	case "toLower":
+		s := arg(0)
+		f := "sfn_strings_ToLower"
+		P.Declare(f, fmt.Sprintf("(declare-fun %s (String) String)\n(assert (forall ((s String)) (! (= (%s (%s s)) (%s s)) :pattern ((%s s)))))", f, f, f, f, f))
+		return TV{fmt.Sprintf("(%s %s)", f, s.T), "String", s.Go}
 	case "ite":
 		c, a, b := arg(0), arg(1), arg(2)
 		a, b = env.unify(a, b)
@@ -217,6 +227,23 @@ func (env *Env) call(e *ECall) TV {
 		T, s := fc.resolveType(ts.Val, env.tpkg)
 		ss := P.SeqSort(s)
 		return TV{"empty_" + ss, ss, types.NewSlice(T)}
+	case "smhas":
+		// smhas(&x.syncmap, key): key (an interface value) is present in the sync.Map at that address
+		m, k := arg(0), arg(1)
+		_, smd := fc.syncMapComps()
+		return TV{fmt.Sprintf("(select (select %s %s) %s)", fc.lookup(env.cur, smd), m.T, k.T), "Bool", B}
+	case "smget":
+		m, k := arg(0), arg(1)
+		smv, _ := fc.syncMapComps()
+		return TV{fmt.Sprintf("(select (select %s %s) %s)", fc.lookup(env.cur, smv), m.T, k.T), "Int", types.NewInterfaceType(nil, nil)}
+	case "smdom":
+		m := arg(0)
+		_, smd := fc.syncMapComps()
+		return TV{fmt.Sprintf("(select %s %s)", fc.lookup(env.cur, smd), m.T), "(Array Int Bool)", nil}
+	case "smval":
+		m := arg(0)
+		smv, _ := fc.syncMapComps()
+		return TV{fmt.Sprintf("(select %s %s)", fc.lookup(env.cur, smv), m.T), "(Array Int Int)", nil}
 	case "mapdom":
 		m := arg(0)
 		if mt, ok := goUnder(m.Go).(*types.Map); ok {
@@ -306,7 +333,8 @@ func (fc *FnCtx) emitSpecFunc(sf *SpecFunc) string {
 		return name
 	}
 	recursive := strings.Contains(sf.BodyTxt, sf.Name+"(")
-	if recursive {
+	quantified := strings.Contains(sf.BodyTxt, "forall ") || strings.Contains(sf.BodyTxt, "exists ")
+	if (recursive || quantified) && len(ps) > 0 && !fc.P.small {
 		fc.P.funDecls = append(fc.P.funDecls, fmt.Sprintf("(declare-fun %s (%s) %s)", name, strings.Join(ss, " "), rS))
 		body := env.tr(sf.Body)
 		fc.P.funDecls = append(fc.P.funDecls, fmt.Sprintf("(assert (forall (%s) (! (= (%s %s) %s) :pattern ((%s %s)))))", strings.Join(ps, " "), name, strings.Join(ns, " "), body.T, name, strings.Join(ns, " ")))
